@@ -44,6 +44,8 @@ class FullWorld(object):
         self.plan = plan
         self.sim = Sim(seed, strategy=plan.get('strategy'), step_cap=step_cap, horizon=horizon, choices=choices)
         self.sim.time_jump_p = plan.get('time_jump_p', 0.0)
+        if plan.get('stall'):
+            self.sim.line_stall = tuple(plan['stall'])
         nk = dict(net or {})
         nk.setdefault('chunk_mode', plan.get('chunk_mode', 'whole'))
         self.net = SimNet(self.sim, **nk)
